@@ -18,8 +18,23 @@ import (
 
 // v14gLoad loads n values {k:K,m:bytes} through lake.Writer and checks the
 // objects it leaves in the model storage.
-func v14gLoad(minN, maxN int) {
-	verif.Goroutines(true)
+func v14gLoad(minN, maxN int) { v14gLoadSched(minN, maxN, 0) }
+
+// v14gSchedKeys: concrete key patterns of the schedule variant, as one-byte
+// int64 bodies (0 = null): 3,1,2,4 and null,2,2,1
+var v14gSchedKeys = [][4]byte{{6, 2, 4, 8}, {0, 4, 4, 2}}
+
+func v14gLoadSched(minN, maxN, sched int) {
+	data := 0
+	if sched > 0 {
+		// schedules are the quantifier: concrete keys and thresholds
+		verif.Schedules(sched)
+		if sched < 3 {
+			data = verif.Choose("data", len(v14gSchedKeys))
+		}
+	} else {
+		verif.Goroutines(true)
+	}
 	zctx := zed.NewContext()
 	desc := verif.Choose("desc", 2) == 1
 	o := order.Asc
@@ -31,10 +46,23 @@ func v14gLoad(minN, maxN int) {
 		Config: pools.Config{
 			SortKeys:   order.SortKeys{order.NewSortKey(o, field.Path{"k"})},
 			SeekStride: 2,
-			Threshold:  int64(verif.Range("threshold", 1, 64)),
+			Threshold:  64,
 		},
 		engine:   eng,
 		DataPath: &storage.URI{Scheme: "file", Path: "/pool/data"},
+	}
+	if sched > 0 {
+		// (a value is 5-6 bytes) every value its own object: the loader
+		// fills a buffer while the previous one is written and waits for
+		// that write before the next flip / two values and two values /
+		// three values, then one at Close / all in one object at Close
+		nthr := 4
+		if sched > 2 {
+			nthr = 2
+		}
+		pool.Threshold = []int64{1, 8, 13, 64}[verif.Choose("threshold", nthr)]
+	} else {
+		pool.Threshold = int64(verif.Range("threshold", 1, 64))
 	}
 	w, err := NewWriter(context.Background(), zctx, pool)
 	verif.Assert(err == nil, "newwriter-no-error")
@@ -43,7 +71,16 @@ func v14gLoad(minN, maxN int) {
 	keys := make([]v14Key, n)
 	for i := 0; i < n; i++ {
 		var b zcode.Builder
-		if verif.Choose("null", 2) == 1 {
+		if sched > 0 {
+			kb := v14gSchedKeys[data][i]
+			if kb == 0 {
+				keys[i] = v14Key{null: true}
+				b.Append(nil)
+			} else {
+				keys[i] = v14Key{k: zed.DecodeInt([]byte{kb})}
+				b.Append([]byte{kb})
+			}
+		} else if verif.Choose("null", 2) == 1 {
 			keys[i] = v14Key{null: true}
 			b.Append(nil)
 		} else {
@@ -160,4 +197,16 @@ func VerifH_C14_O10_lake_writer() {
 // verif:unwind 64
 func VerifH_C14_O10t_lake_writer_4() {
 	v14gLoad(4, 4)
+}
+
+// verif:desc C14-O10s the loader lake.Writer, same run and same assertions as VerifH_C14_O10_lake_writer, under EVERY goroutine schedule with at most 2 preemptions (thorough tier: 3) at the channel operations, selects, closes, atomics, map accesses, lock/once/WaitGroup operations and goroutine starts of the real Write/flipBuffers/writeObject/Close code (the loader, the errgroup leg writing an object, its sort goroutine) and of what they run (data.Writer, zngio.Writer, seekindex.Writer, the model storage), with a bounded free choice of which runnable goroutine continues: the loader fills the next buffer WHILE the previous object is being written, so this explores the overlap of reading and writing that the one-schedule harness leaves out; the stored objects (every value in exactly one object, none empty, Count/Size/Min/Max, pool-key order with nulls max) and the import statistics do not depend on the schedule
+// verif:bounds 4 values {k:K,m:bytes} with the concrete keys 3,1,2,4 or null,2,2,1 (Choose); pool order asc or desc; pool threshold 1 (an object per value: a flip waits for the write before it), 8 (two and two values), 13 (three values, then one at Close) or 64 (one object at Close); seek stride 2; model storage atomic puts, never failing; preemption bound 2 (thorough: 3, there with the keys 3,1,2,4 and the thresholds 1 and 8 only) - the loader is blocked during most of an object write, so a schedule has few decisions
+// verif:outside as VerifH_C14_O10_lake_writer except that schedules are explored up to the bound; symbolic keys and thresholds (VerifH_C14_O10_lake_writer); field/slice loads and stores are not preemption points (data-race freedom between sync points is assumed, not checked)
+// verif:unwind 64
+func VerifH_C14_O10s_lake_writer_schedules() {
+	if verif.Thorough() {
+		v14gLoadSched(4, 4, 3)
+	} else {
+		v14gLoadSched(4, 4, 2)
+	}
 }
